@@ -186,13 +186,18 @@ def compare(obs: List[Dict[str, Any]], exp: List[Dict[str, Any]], spans: List[Tu
 def run_split(bib, text: str, how: str = "split"):
     """Returns (exception name or None, observed blocks)."""
     try:
-        if how == "split":
-            lib = bib.splitter.Splitter(text).split()
-        elif how == "default":
-            lib = bib.parse_string(text)
-        else:
-            lib = bib.parse_string(text, parse_stack=[])
-    except Exception as e:  # noqa
+        # a budget per call (generous: 60 s + 0.2 ms per character), so that a change that makes the scanner loop ends in a
+        # verdict ("raised: Timeout") instead of a harness that never returns
+        with core.time_limit(60 + len(text) * 2e-4):
+            if how == "split":
+                lib = bib.splitter.Splitter(text).split()
+            elif how == "default":
+                lib = bib.parse_string(text)
+            else:
+                lib = bib.parse_string(text, parse_stack=[])
+    except core.Timeout:
+        return "Timeout: no result within 60 s + 0.2 ms per character", []
+    except (Exception, MemoryError) as e:  # noqa
         return f"{type(e).__name__}: {str(e)[:120]}", []
     obs = observe(lib, bib.model)
     scribble(lib, bib.model)
